@@ -609,7 +609,7 @@ class Scheduler(BaseScheduler[Job, Callable[..., None]]):
             args=args,
             kwargs=kwargs,
             max_attempts=1,
-            tags=tags,
+            tags=set(tags) if tags else set(),
             alias=alias,
             weight=weight,
         )
